@@ -71,6 +71,23 @@ static volatile long g_progress = 0;
 static volatile int  g_done = 0;
 static volatile const char *g_where = "start";
 static int g_ncases = 0;
+/* phased mode (SVTDRV_PHASED=1, several encoder cases in one process): session construction (init_handle..init) and teardown are
+ * serialised and separated from the encoding phase by barriers, so that the instances only overlap while they are encoding (C17) */
+static pthread_mutex_t ph_mx = PTHREAD_MUTEX_INITIALIZER, ph_serial = PTHREAD_MUTEX_INITIALIZER;
+static pthread_cond_t  ph_cv = PTHREAD_COND_INITIALIZER;
+static int ph_enabled = 0, ph_participants = 0, ph_arrived[2] = {0, 0};
+static void ph_wait(int b) {
+    if (!ph_enabled) return;
+    pthread_mutex_lock(&ph_mx); ph_arrived[b]++; pthread_cond_broadcast(&ph_cv);
+    while (ph_arrived[b] < ph_participants) pthread_cond_wait(&ph_cv, &ph_mx);
+    pthread_mutex_unlock(&ph_mx);
+}
+static void ph_leave(void) {
+    if (!ph_enabled) return;
+    pthread_mutex_lock(&ph_mx); ph_participants--; pthread_cond_broadcast(&ph_cv); pthread_mutex_unlock(&ph_mx);
+}
+#define PH_LOCK()   do { if (ph_enabled) pthread_mutex_lock(&ph_serial); } while (0)
+#define PH_UNLOCK() do { if (ph_enabled) pthread_mutex_unlock(&ph_serial); } while (0)
 static Case *g_cases[8];
 
 static double now_ms(void) {
@@ -270,16 +287,17 @@ static int run_session(Case *cs, int pass /*0 single, 1 first, 2 second*/, Stats
     double t0 = now_ms();
     fprintf(jf, "{\"pass\":%d,\"rep\":%d,\"threads_before\":%d,\"heap_before\":%zu", pass, rep, threads_before, (size_t)mi0.uordblks);
     g_where = "init_handle";
+    PH_LOCK();
     EbErrorType rc = svt_av1_enc_init_handle(&h, (void *)cs, cfg);
     fprintf(jf, ",\"rc_init_handle\":%d", (int)rc);
-    if (rc != EB_ErrorNone || !h) { fprintf(jf, "}"); free(cfg); return 1; }
+    if (rc != EB_ErrorNone || !h) { fprintf(jf, "}"); free(cfg); PH_UNLOCK(); ph_leave(); return 1; }
     if (cs->dump_cfg) { fprintf(jf, ",\"cfg_default\":{"); cfg_dump(jf, cfg); fprintf(jf, "}"); }
     int bad = 0;
     for (int i = 0; i < cs->nsets; i++) {
         int r = cfg_set(cfg, cs->sets[i].name, cs->sets[i].is_arr ? cs->sets[i].idx : -1, cs->sets[i].val);
         if (r) { fprintf(stderr, "bad cfg field %s\n", cs->sets[i].name); bad = 1; }
     }
-    if (bad) { fprintf(jf, ",\"badcase\":1}"); svt_av1_enc_deinit_handle(h); free(cfg); return 5; }
+    if (bad) { fprintf(jf, ",\"badcase\":1}"); svt_av1_enc_deinit_handle(h); free(cfg); PH_UNLOCK(); ph_leave(); return 5; }
     if (pass == 1) { cfg->rc_firstpass_stats_out = 1; cfg->rc_twopass_stats_in.buf = NULL; cfg->rc_twopass_stats_in.sz = 0; }
     if (pass == 2) { cfg->rc_firstpass_stats_out = 0; cfg->rc_twopass_stats_in.buf = stats->buf; cfg->rc_twopass_stats_in.sz = stats->sz; }
     int w = cfg->source_width, hgt = cfg->source_height, bd = cfg->encoder_bit_depth;
@@ -292,11 +310,13 @@ static int run_session(Case *cs, int pass /*0 single, 1 first, 2 second*/, Stats
         g_where = "deinit_handle(after reject)";
         EbErrorType r2 = svt_av1_enc_deinit_handle(h);
         fprintf(jf, ",\"rc_deinit_handle\":%d,\"threads_after\":%d}", (int)r2, count_threads());
-        free(cfg); return 1;
+        free(cfg); PH_UNLOCK(); ph_leave(); return 1;
     }
     g_where = "init";
     rc = svt_av1_enc_init(h);
     fprintf(jf, ",\"rc_init\":%d,\"threads_running\":%d", (int)rc, count_threads());
+    PH_UNLOCK();
+    if (rc == EB_ErrorNone) { g_where = "phase-barrier(init)"; ph_wait(0); } else ph_leave();
     if (rc != EB_ErrorNone) {
         svt_av1_enc_deinit(h); svt_av1_enc_deinit_handle(h);
         fprintf(jf, ",\"threads_after\":%d}", count_threads()); free(cfg); return 1;
@@ -420,11 +440,14 @@ static int run_session(Case *cs, int pass /*0 single, 1 first, 2 second*/, Stats
         if (rc == EB_ErrorNone && fb.sz) { stats->buf = malloc(fb.sz); memcpy(stats->buf, fb.buf, fb.sz); stats->sz = fb.sz; }
     }
     double t1 = now_ms();
+    g_where = "phase-barrier(drained)"; ph_wait(1);
+    PH_LOCK();
     g_where = "deinit";
     rc = svt_av1_enc_deinit(h); g_progress++;
     fprintf(jf, ",\"rc_deinit\":%d", (int)rc);
     g_where = "deinit_handle";
     rc = svt_av1_enc_deinit_handle(h); g_progress++;
+    PH_UNLOCK();
     struct mallinfo2 mi1 = mallinfo2();
 #ifdef SVT_AV1_VERIF
     fprintf(jf, ",\"sched_events\":%llu", (unsigned long long)svt_verif_sched_event_count());
@@ -539,6 +562,10 @@ int main(int argc, char **argv) {
         g_cases[i] = calloc(1, sizeof(Case));
         if (parse_case(g_cases[i], argv[i + 1])) return 5;
         g_cases[i]->instance = i;
+    }
+    if (getenv("SVTDRV_PHASED") && g_ncases > 1) {
+        for (int i = 0; i < g_ncases; i++) if (!g_cases[i]->is_dec && !g_cases[i]->twopass && g_cases[i]->repeat <= 1) ph_participants++;
+        ph_enabled = ph_participants > 1;
     }
     pthread_t wd; pthread_create(&wd, NULL, watchdog, NULL);
     long ret = 0;
